@@ -1,5 +1,6 @@
 """C08 — recorded calls are exactly the user procedures a unit invokes."""
 import itertools
+import json
 
 from harness import core
 from harness.core import coq_str, coq_list, coq_opt, coq_bool
@@ -103,12 +104,7 @@ def re_term(x):
 def granular(chk, rng, quick):
     stmts = sample_statements(rng, 250 if quick else 4000)
     texts = [t for t, _ in stmts]
-    corpus = ["if (f(1) > 0) call sub(g(2))", "call a%b()%c", "x = a % b () % c (1) + d%e", "10 format (i5)",
-              "100 format(3(i5))", "go to (1, 2), i", "blk: associate (a => f(x), b => y)", "end associate blk",
-              "print *, 'call q(1)', \"it's\"", "x = 'a''b' // \"\"", "' 'a' 'b'", "\" 'a' 'b'", " a%b()", "a%b() %c",
-              "if(x)call y", "IF (a) CALL b % c ()", "call mygoto(1, 2)", "10 call sub0", "x = 'a'\"b\"",
-              "associate (t => arr(1:3) + 1)", "endassociate", "end  associate x1", "call a%b(f(1))%c(g(2))",
-              "x = a%b(1)%c + a%b(2)%d(3)", "if (x) then", "else if (f(x)) then", "call sub (1)", "call  sub0 ()"]
+    corpus = json.load(open(core.VERIF / "corpus" / "C08" / "strings.json"))["strings"]
     xs = corpus + texts + [mutate(rng, rng.choice(texts)) for _ in range(450 if quick else 9000)] \
         + [random_text(rng) for _ in range(500 if quick else 9000)]
     xs = [x for x in xs if core.is_ascii(x) and "\n" not in x]
@@ -146,14 +142,22 @@ def granular(chk, rng, quick):
     # C. _add_procedure_calls with associations and earlier calls
     acases = []
     batch_pool = [["a => f(x)", "b => y%z(i)"], ["aa => obj%items", "bb=>arr"], ["c => a"], ["t => arr(1:3) + 1"],
-                  ["sel => obj % inner", "A => B"], ["broken"], ["x => y => z"], ["n => size(arr)"], []]
+                  ["sel => obj % inner", "A => B"], ["broken"], ["x => y => z"], ["n => size(arr)"], [],
+                  ["aa => f(1)", "sel => p"], ["bb => aa", "cc => sel%inner"], ["aa => arr", "aa => sums"],
+                  ["sel => obj%inner", "cc => g(2)"]]
     prev_pool = [[], [["f"]], [["obj", "run"]], [["sub0"], ["a", "get"]]]
     for x in masked[:len(corpus) + (300 if quick else 4000)] + [mutate(rng, rng.choice(masked)) for _ in range(100 if quick else 3000)]:
         if not x:
             continue     # never reached: the cascade calls the method only for lines a pattern matched on
-        batches = [rng.choice(batch_pool) for _ in range(rng.choice([0, 0, 1, 2]))]
+        batches = [rng.choice(batch_pool) for _ in range(rng.choice([0, 1, 2, 2, 3]))]
         prev = rng.choice(prev_pool)
         acases.append((batches, prev, x, I.add_calls(batches, prev, x)))
+    # nested ASSOCIATE constructs that bind the same name again: every ordered pair of such batches
+    rebind = [b for b in batch_pool if any(i.split("=>")[0].strip().lower() in ("aa", "bb", "cc", "sel") for i in b if "=>" in i)]
+    for b1 in rebind:
+        for b2 in rebind:
+            for x in ["x = aa(1) + sel%items(2)", "call sel%run()", "call cc%reset", "y = bb(i) + cc(2)"]:
+                acases.append(([b1, b2], [], x, I.add_calls([b1, b2], [], x)))
     terms = []
     for batches, prev, x, out in acases:
         terms.append(f"({coq_list(coq_list(cstr(i) for i in b) for b in batches)}, {coq_list(c_chain(c) for c in prev)}, "
@@ -209,6 +213,7 @@ def respace(rng, text):
 def end_to_end(chk, rng, nproj):
     cases = []
     stats = {"projects": 0, "units": 0, "ford_errors": 0, "stmts": 0, "respaced_projects": 0}
+    kinds = {}
     for k in range(nproj):
         knobs = dict(rng.choice(KNOB_SETS))
         proj = G.gen_project(rng, knobs)
@@ -241,6 +246,9 @@ def end_to_end(chk, rng, nproj):
                           {k: v for k, v in knobs.items() if k != "respace"}, strict))
             stats["units"] += 1
             stats["stmts"] += len(srcs)
+            for s_ in asts:
+                k_ = s_[3][0] if s_[0] == "form" else s_[0]
+                kinds[k_] = kinds.get(k_, 0) + 1
             chk.count(("unit", tuple(srcs)), nontrivial=bool(r["calls"]),
                       sample={"unit": ".".join(path), "statements": srcs[:6], "calls": r["calls"]}
                       if len(chk.samples) < 5 and r["calls"] else None)
@@ -277,6 +285,7 @@ def end_to_end(chk, rng, nproj):
         bad = [i for i, v in rres.items() if v == 2]
         if bad:
             chk.obligation("exactness-conclusion-on-resolvable-units", False, str(cases[bad[0]][3]))
+    stats["statement_kinds"] = dict(sorted(kinds.items()))
     chk.extra["end_to_end"] = stats
     chk.extra["known_region_cases"] = region_hits
 
